@@ -67,7 +67,7 @@ BASE = {
     "RegionsMC.tla": {"SubjectNames": {"string"}, "NSlots": 1, "MaxOps": 3, "MaxGhost": 0, "DomSize": 3, "Ops": {"push", "clear"},
                       "Queries": {"none"}, "EquivDepth": 1, "Emit": False, "U32Limit": 2147483647},
     "ICMC.tla": {"Kinds": {"opt"}, "AlphaSel": "full", "MaxOps": 4, "MaxGhost": 0, "ExtendOn": False, "Emit": False},
-    "DictMC.tla": {"NSlots": 2, "MaxGen0": 2, "MaxMerge": 1, "MaxCoded": 1, "MaxClear": 0, "StrSel": "quick", "Emit": False},
+    "DictMC.tla": {"NSlots": 2, "MaxGen0": 2, "MaxMerge": 1, "MaxCoded": 1, "MaxClear": 0, "MaxReserve": 0, "StrSel": "quick", "Emit": False},
     "HuffmanMC.tla": {"NSlots": 2, "MaxRaw": 1, "MaxMerge": 1, "MaxCoded": 2, "MaxClear": 0, "ItemSel": "quick", "MaxCodeLen": 5, "Emit": False},
     "FlatStackMC.tla": {"SubjectNames": {"fs_string"}, "MaxOps": 3, "MaxGhost": 0, "DomSize": 3, "Ops": {"copy", "extend", "clear"},
                         "Emit": False, "U32Limit": 2147483647},
